@@ -206,6 +206,25 @@ let () =
                   (String.concat "," (List.map (fun (a, b) -> Printf.sprintf "%d-%d" (int_of_n a) (int_of_n b)) cls))) b1_classes;
             print_endline "END"
           | "RRFC" -> (match r_rfc () with Some r -> reg_state := r; print_endline "RRFC OK" | None -> print_endline "RRFC ERR")
+          | "RRFC5234" -> (match r_rfc5234 () with Some r -> reg_state := r; print_endline "RRFC5234 OK" | None -> print_endline "RRFC5234 ERR")
+          | "RALL" -> (match r_all () with Some r -> reg_state := r; print_endline "RALL OK" | None -> print_endline "RALL ERR")
+          | "RONLY" -> let m = read_str () in
+            (match r_only m with Some r -> reg_state := r; print_endline "RONLY OK" | None -> print_endline "RONLY ERR")
+          | "RPARSEC" ->  (* RPARSEC kind module class name i s : rule of a bundled class *)
+            let kind = next_int () in let m = read_str () in let cn = read_str () in let nm = read_str () in
+            let i = next_int () in let s = read_str () in
+            (match cls_of bundled m cn with
+             | None -> print_endline "NOCLASS"
+             | Some c ->
+               (match rget !reg_state c nm with
+                | None -> print_endline "NORULE"
+                | Some k ->
+                  let gr = grammar_of !reg_state in
+                  let r = n_of_int (int_of_nat k) in
+                  print_endline (pr_res (match kind with
+                      | 0 -> lparse sh_id gr !fuel (ERef r) s (nat_of_int i)
+                      | 1 -> parse sh_id gr !fuel r s (nat_of_int i)
+                      | _ -> parse_all sh_id gr !fuel r s))))
           | "RRESET" -> reg_state := boot_reg ()
           | "RCREATE" ->  (* RCREATE route cls text : route 0 = spec reader, 1 = library model (engine+visitor) *)
             let route = next_int () in let c = next_int () in let t = read_str () in
